@@ -18,6 +18,48 @@ namespace Life
 @[simp] theorem andThen_fst (x : M) (f : Actor → M) : (andThen x f).1 = (f x.1).1 := rfl
 @[simp] theorem andThen_snd (x : M) (f : Actor → M) : (andThen x f).2 = x.2 ++ (f x.1).2 := rfl
 
+/-! ### exit paths only emit supervision events and the join / spawn result -/
+
+def Ev.isExitNoise : Ev → Bool
+  | .emit _ _ | .join _ | .spawnRet _ => true
+  | _ => false
+
+theorem cleanup_noise (a : Actor) (e : Option SupEv) : ∀ x ∈ evs (cleanup a e).2, x.isExitNoise = true := by
+  unfold cleanup
+  split
+  · simp
+  · cases e <;> cases hs : a.sup <;> simp [Actor.setStatus, hs, Ev.isExitNoise]
+
+theorem finish_noise (a : Actor) (e : SupEv) : ∀ x ∈ evs (finish a e).2, x.isExitNoise = true := by
+  intro x hx
+  simp only [finish, andThen_snd, evs_append, List.mem_append] at hx
+  rcases hx with hx | hx
+  · exact cleanup_noise _ _ x hx
+  · simp at hx; subst hx; rfl
+
+theorem finish_phase (a : Actor) (e : SupEv) : (finish a e).1.phase = .done := by
+  simp [finish, Actor.dropPorts]
+
+theorem killedInLoop_noise (a : Actor) : ∀ x ∈ evs (killedInLoop a).2, x.isExitNoise = true := by
+  intro x hx
+  simp only [killedInLoop, handleSignal, andThen_snd, evs_append, List.mem_append, evs_cons_eff, evs_nil] at hx
+  rcases hx with hx | hx
+  · simp at hx
+  · exact finish_noise _ _ x hx
+
+theorem killedOutsideLoop_noise (a : Actor) : ∀ x ∈ evs (killedOutsideLoop a).2, x.isExitNoise = true := by
+  intro x hx
+  simp only [killedOutsideLoop, handleSignal, andThen_snd, evs_append, List.mem_append, evs_cons_eff, evs_nil] at hx
+  rcases hx with hx | hx
+  · simp at hx
+  · exact finish_noise _ _ x hx
+
+theorem killedInLoop_phase (a : Actor) : (killedInLoop a).1.phase = .done := by
+  simp [killedInLoop, finish_phase]
+
+theorem killedOutsideLoop_phase (a : Actor) : (killedOutsideLoop a).1.phase = .done := by
+  simp [killedOutsideLoop, finish_phase]
+
 section accepts
 variable {σ : Type} (next : σ → Ev → Except String σ)
 
